@@ -109,13 +109,15 @@ def ihex(data):
 class Impl:
     nested = None
     failed_saves = 0
+    restarts = 0
+    during_stop = None
     unfailed_saves = 0
 
-    def __init__(self, cfg, scratch=None):
+    def __init__(self, cfg, scratch=None, log=None):
         import mysensors
         from mysensors.gateway_mqtt import MQTTGateway, AsyncMQTTGateway
         self.cfg = cfg
-        self.log = []
+        self.log = [] if log is None else log      # one continuous event log across restarts
         self.scratch = scratch or (BUILD / "scratch" / str(os.getpid()))
         kwargs = {"protocol_version": cfg.get("spell") or cfg["ver"]}
         if cfg.get("callback", True):
@@ -245,6 +247,25 @@ class Impl:
                     run_inner(inner)
             elif kind == "restart":       # clean stop, new process, start_persistence
                 self._guard(self._restart)
+            elif kind == "restart_during":   # the inner op is handled while stop() is under way (before it disconnects)
+                inner = tuple(o[1])
+                run_inner = getattr(self, "nested", None) or self.op
+                fired = []
+
+                log = self.log
+
+                def hook():
+                    if not fired:
+                        fired.append(1)
+                        run_inner(inner)
+                        fired.append(len(log))
+                self.during_stop = hook
+                try:
+                    self._guard(self._restart)
+                finally:
+                    self.during_stop = None
+                # observation of this op = what the restart itself did (the inner op reported at its own time)
+                return self.render(fired[1] if len(fired) > 1 else start)
             elif kind == "clock":
                 self.clock = o[1]
                 return "ok"
@@ -256,16 +277,30 @@ class Impl:
         import threading
         old = self.gw
         with mock.patch.object(threading, "Timer", _FakeTimer):
+            self.restarts += 1
+            hook = getattr(self, "during_stop", None)
+            if hook is not None:
+                # something is handled while stop() is under way: at the moment stop() disconnects the transport
+                real_disconnect = old.tasks.transport.disconnect
+
+                def disconnect():
+                    hook()
+                    return real_disconnect()
+                old.tasks.transport.disconnect = disconnect
             if self.is_async:
                 async def stop():
-                    old.tasks.transport.connect_task = None
+                    # every other stop finds a reconnect attempt pending (a task in transport.connect_task that
+                    # stop() has to cancel on its way to the final save)
+                    pending = self.restarts % 2 == 1
+                    old.tasks.transport.connect_task = (
+                        asyncio.get_running_loop().create_task(asyncio.sleep(3600)) if pending else None)
                     await old.stop()
                 asyncio.run(stop())
             else:
                 old.stop()
         cfg = self.cfg
         clock, fwn = self.clock, self._fwn
-        self.__init__(cfg, self.scratch)
+        self.__init__(cfg, self.scratch, log=self.log)
         self.clock, self._fwn = clock, fwn    # the harness clock is not part of the gateway
         if self.gw.tasks.persistence:
             if self.is_async:
@@ -338,7 +373,7 @@ def oracle_strings(ops):
     from mysensors.message import Message
     out = ["1.4"]
     for o in ops:
-        if o[0] in ("save_during", "save_fail_during"):
+        if o[0] in ("save_during", "save_fail_during", "restart_during"):
             o = tuple(o[1])
         if o[0] == "recv":
             try:
